@@ -6,6 +6,7 @@ import BigtreeProofs.Lemmas.BridgeAddr
 import BigtreeProofs.Lemmas.BridgeStep
 import BigtreeProofs.Lemmas.BridgeTransfer
 import BigtreeProofs.Lemmas.StorePathD
+import BigtreeProofs.Lemmas.StoreAssert
 import BigtreeProofs.Properties.C02
 import BigtreeProofs.Properties.C04
 import BigtreeProofs.Properties.C12
@@ -22,8 +23,9 @@ of the read-backs of the parentless nodes.  The theorems say
 3. parent/children links of the store are exactly the parent/children relation of the tree, in
    order (`treeOf_sub`, `treeOf_children`, `treeOf_parent`, `treeOf_addr`);
 4. every ACCEPTED call of the structural API is, read back, the documented edit of the forest
-   (`setParent_some_refines` … `step_refines`, `run_refines`), a REJECTED one changes nothing
-   (`step_rej_forest`);
+   (`setParent_some_refines` … `step_refines`, `run_refines`, `run_refines_allok`,
+   `run_refines_unchecked`), a REJECTED one changes nothing (`step_rej_forest`; for the documented loop
+   `extend`: `extend_refines_prefix`);
 5. transfer: theorems about model B hold for every state reachable in model A
    (`preorder_transfer` with C04, `depth_transfer` with C12/C03/C01).
 
@@ -286,6 +288,45 @@ example : NoRejExtend demoCfg (init 6 (fun i => [Char.ofNat (97 + i)]) ['/']) de
 example : Forest.replay (forest (init 6 (fun i => [Char.ofNat (97 + i)]) ['/']))
     (demoOps.zip (outcomes demoCfg (init 6 (fun i => [Char.ofNat (97 + i)]) ['/']) demoOps))
     = [nd 0 [nd 1 [nd 3 [leaf 4]], leaf 2], leaf 5] := by decide
+
+/-- `p.extend(cs)`, accepted or not: exactly the members before the first refused one have been moved
+below `p`, each as the last child, in order (all members when the call is accepted) -/
+theorem extend_refines_prefix (c : Cfg) (hc : c.assertions = true) (s : Store) (hw : WF s) (p : Nat)
+    (cs : List Nat) (f : Fault) (k : Nat) :
+    ∃ j, j ≤ cs.length ∧ ((step c s (.extend p cs f k)).2 = .ok → j = cs.length) ∧
+      (forest (step c s (.extend p cs f k)).1).Perm ((cs.take j).foldl (fun G c => Forest.move G c p) (forest s)) := by
+  simp only [step]
+  split
+  · exact forest_extend_prefix hc p cs s f k hw (forest s) (List.Perm.refl _)
+  · exact ⟨0, Nat.zero_le _, fun h => by cases h, List.Perm.refl _⟩
+
+-- the second member is a non-node: the first one has been moved, the call fails
+example : (step demoCfg demo (.extend 5 [2, 9, 3] .none 0)).2 = .rej ∧
+    (forest (step demoCfg demo (.extend 5 [2, 9, 3] .none 0)).1)
+      = ([2, 9, 3].take 1).foldl (fun G c => Forest.move G c 5) (forest demo) := by decide
+
+/-- histories in which every call is accepted: the final forest is the fold of the documented edits -/
+theorem run_refines_allok (c : Cfg) (hc : c.assertions = true) : ∀ (ops : List Op) (s : Store), WF s →
+    AllOk c s ops → ∀ G : Forest, (forest s).Perm G →
+    (forest (run c s ops)).Perm (ops.foldl Forest.apply G) := by
+  intro ops
+  induction ops with
+  | nil => intro s _ _ G hG; exact hG
+  | cons op ops ih =>
+    intro s hw h G hG
+    exact ih _ (Store.wf_step hw c hc op) h.2 _ (forest_step hw c hc op h.1 G hG)
+
+/-- … also with bigtree's `ASSERTIONS` switched off (C20's domain: histories every call of which the
+checks would accept) -/
+theorem run_refines_unchecked (nd : Bool) (ops : List Op) (s : Store) (hw : WF s)
+    (h : AllOk (onCfg nd) s ops) :
+    (forest (run (offCfg nd) s ops)).Perm (ops.foldl Forest.apply (forest s)) := by
+  rw [run_off_same nd ops s h]
+  exact run_refines_allok (onCfg nd) rfl ops s hw h _ (List.Perm.refl _)
+
+example : AllOk (onCfg false) (init 6 (fun i => [Char.ofNat (97 + i)]) ['/']) (demoOps.take 3) := by
+  simp only [AllOk, demoOps, List.take]
+  decide
 
 /-! ## 5. transfer: theorems about rose trees hold in every reachable state -/
 
